@@ -655,6 +655,29 @@ func checkLive(c LiveCase) error {
 		}
 		ks = append(ks, pair{o, p})
 	}
+	// {time delta} counts the seconds since the expression was compiled. The
+	// two builders below are compiled within the same millisecond, so -
+	// whenever they are first evaluated - their values may differ by the one
+	// second boundary that can fall between the two compilations, not more.
+	// (The optimiser evaluates the stage once while compiling; the plain
+	// builder does not: a clock that starts "on first use" starts at
+	// different moments in the two.)
+	dOpt, e1 := funclib.NewKeyBuilderEx(true).Compile("{time delta}")
+	dPlain, e2 := funclib.NewKeyBuilderEx(false).Compile("{time delta}")
+	if e1 != nil || e2 != nil {
+		return fmt.Errorf("{time delta} does not compile: optimised %v, plain %v", errText(e1), errText(e2))
+	}
+	time.Sleep(2100 * time.Millisecond)
+	dov, dpv := dOpt.BuildKey(c.Ctx.kb(nil)), dPlain.BuildKey(c.Ctx.kb(nil))
+	on, oerr := strconv.Atoi(dov)
+	pn, perr := strconv.Atoi(dpv)
+	if oerr != nil || perr != nil {
+		return fmt.Errorf("{time delta} evaluated 2.1 s after compilation is not a number: optimised %s, plain %s", q(dov), q(dpv))
+	}
+	if on-pn > 1 || pn-on > 1 || on < 1 || pn < 1 {
+		return fmt.Errorf("{time delta}, both builders compiled at the same moment and first evaluated 2.1 s later: optimised %d, non-optimised %d (seconds since compilation: 2 or 3)", on, pn)
+	}
+	c.Obs.Label(true, "delta-origin-compared")
 	eval := func() (ov, pv []string, touched []int) {
 		for _, k := range ks {
 			cc := &countingCtx{inner: c.Ctx.kb(nil)}
@@ -690,7 +713,7 @@ func checkLive(c LiveCase) error {
 
 var liveSpec = pbt.Spec[LiveCase]{
 	Property: "C10", Name: "live",
-	Rule:   "6..14 templates per case around {time live} / {time delta} (keyword spelled in any case, quoted, or computed from constants; extra format/tz arguments; bare, inside literal text, as argument of sumi/timeformat/tab/coalesce/if/format/@join, inside an @map sub-expression, inside user functions of a funcs file incl. one calling another); oracle: evaluated in two different wall-clock seconds the optimised builder's text changes whenever the non-optimised builder's does (purely behavioural; whether the context is touched is only labelled). Non-trivial: every case (>=6 moving templates)",
+	Rule:   "6..14 templates per case around {time live} / {time delta} (keyword spelled in any case, quoted, or computed from constants; extra format/tz arguments; bare, inside literal text, as argument of sumi/timeformat/tab/coalesce/if/format/@join, inside an @map sub-expression, inside user functions of a funcs file incl. one calling another); oracle: evaluated in two different wall-clock seconds the optimised builder's text changes whenever the non-optimised builder's does (purely behavioural; whether the context is touched is only labelled); {time delta} compiled by both builders at one moment and first evaluated 2.1 s later agrees within one second. Non-trivial: every case (>=6 moving templates)",
 	Budget: pbt.Budget{Quick: 32, Thorough: 480},
 	Gen:    genLive, Check: checkLive,
 	Classify: func(c LiveCase) (bool, []string) {
